@@ -111,7 +111,10 @@ class Graph:
             if (op in ("BinOp", "Compare", "BoolOp") and attr in COMMUTATIVE):
                 kids = sorted(kids)
             if op == "Const":
-                key = ("Const", type(attr).__name__, repr(attr))
+                if isinstance(attr, (int, float)) and not isinstance(attr, bool):
+                    key = ("Const", "num", repr(float(attr)))
+                else:
+                    key = ("Const", type(attr).__name__, repr(attr))
             else:
                 exk = ()
                 if x.extra:
